@@ -1,12 +1,13 @@
 #!/bin/bash
 # ./neutralrun.sh <id> [checks...]   runs the quick tier of all (or the named) checks against a behaviour-preserving
-# change (/tmp/seed-<id>/OUT/patch.diff or /verif/seeded/<id>/patch.diff). Expected: every check exits 0.
+# change (/tmp/seed-<id>/OUT/patch.diff or $V/seeded/<id>/patch.diff). Expected: every check exits 0.
 # The change is applied to /repo only while the worker binaries are built (exclusive build lock).
+V="$(cd "$(dirname "$0")" && pwd)"   # the /verif tree these scripts belong to (also a snapshot of it)
 set -u
 export GOFLAGS=-mod=mod GOPROXY=off GOSUMDB=off GOTOOLCHAIN=local
 ID="$1"; shift
 CHECKS="${*:-C01 C02 C03 C04 C05 C06 C07 C08 C09 C10 C11 C12 C13 C14 C15 C16 C17 C18 C19 C20}"
-OUT=/verif/seeded/$ID
+OUT=$V/seeded/$ID
 SCR=/var/tmp/verif-neutral/$ID
 LOCK=/var/tmp/verif-repo.lock
 mkdir -p "$OUT" "$SCR"
@@ -21,13 +22,13 @@ PATCH="$OUT/patch.diff"
   base=$( (cd client && go test -vet=off -count=1 ./pkg/... 2>&1 | grep -c "^ok") )
   sb=$( (cd server && go build ./... && go build -tags verif ./...) >/dev/null 2>&1 && echo ok || echo FAIL)
   echo "[$ID] baseline packages ok: $base/6, server build: $sb"
-  (cd /verif && VERIF_REPO_LOCKED=1 VERIF_BIN_DIR="$SCR/bin" ./check C12 --build-only); rc=$?
+  (cd "$V" && VERIF_REPO_LOCKED=1 VERIF_BIN_DIR="$SCR/bin" ./check C12 --build-only); rc=$?
   git checkout -q -- . ; git clean -fdq
   exit $rc
 ) 9>"$LOCK" || { echo "[$ID] build failed"; exit 2; }
 res=""
 for chk in $CHECKS; do
-  (cd /verif && VERIF_SKIP_BUILD=1 VERIF_BIN_DIR="$SCR/bin" VERIF_OUT_DIR="$SCR" ./check $chk quick > "$SCR/$chk.out" 2>&1); rc=$?
+  (cd "$V" && VERIF_SKIP_BUILD=1 VERIF_BIN_DIR="$SCR/bin" VERIF_OUT_DIR="$SCR" ./check $chk quick > "$SCR/$chk.out" 2>&1); rc=$?
   sig=$(grep "signature-tally" "$SCR/$chk.out" | head -3 | sed 's/ *signature-tally: *//' | tr '\n' ';' | cut -c1-200)
   [ $rc -ne 0 ] && echo "[$ID] ALARM $chk -> exit $rc  $sig $(grep -E 'BROKEN|INCONCLUSIVE|HARNESS' "$SCR/$chk.out" | head -2 | cut -c1-200)"
   res="$res $chk=$rc"
